@@ -89,7 +89,8 @@ def run(tier):
     timeout = 60000 if thorough else 10000
     accepted_base = load_baseline("accepted_corpus.json")
     accepted_base = set(accepted_base) if accepted_base is not None else None
-    items = [(n, B[n], "READ_STATEMENTS", None, unroll, timeout) for n in names]
+    # explicit temporary-counter offset (1000 = long-lived instance): the verdict must not depend on worker history
+    items = [(n, B[n], "READ_STATEMENTS", 1000, unroll, timeout) for n in names]
     recs = [r for rr in framework.pmap(corpus_run.tv_insn, items, chunksize=4) for r in rr]
     for r in recs:
         classify(rep, r, accepted_base)
@@ -112,7 +113,7 @@ def run(tier):
             if re.search(r"\+\+|--|\w+\s*\(|\(\{", "".join(B[n])):
                 for hyb in (0, 1, 1000):
                     more.append((n, B[n], "READ_STATEMENTS", hyb, unroll, timeout))
-            more.append((n, B[n], "EXEC_CLASSES", None, unroll, timeout))
+            more.append((n, B[n], "EXEC_CLASSES", 1000, unroll, timeout))
         for rr in framework.pmap(corpus_run.tv_insn, more, chunksize=4):
             for r in rr:
                 r = dict(r)
